@@ -2,6 +2,8 @@
   Driver.Ops — decoding of schema / dataset / query lines and the per-case evaluation.
 -/
 import Lmd.Render
+import Lmd.Print
+import Lmd.Frame
 
 open Lean (Json)
 open Lmd
@@ -243,6 +245,7 @@ def handleQuery (st : State) (j : Json) : Json :=
   | .error (.bad msg) => Json.mkObj (base ++ [("parse", .str "bad"), ("msg", .str msg)])
   | .error (.unsupported why) => Json.mkObj (base ++ [("parse", .str "unsupported"), ("why", .str why)])
   | .ok req =>
+    let base := base ++ [("reprint", .str req.print)]
     match st.schema.table? req.table with
     | none => Json.mkObj (base ++ [("parse", .str "bad"), ("msg", .str "table")])
     | some t =>
@@ -309,6 +312,16 @@ def step (st : State) (j : Json) : State × Option Json :=
   match jStr j "op" with
   | "dataset" => ({ st with ds := parseDataset st.schema (jObj j "dataset") }, none)
   | "query" => (st, some (handleQuery st j))
+  | "frame" =>
+    let hdr := fixed16Header (jNat j "code") (jNat j "size")
+    (st, some (Json.mkObj [("id", .num ⟨(jNat j "id" : Int), 0⟩), ("op", .str "frame"), ("header", .str hdr)]))
+  | "plan" =>
+    let reqs := (jArr j "reqs").map fun r => ({ parses := jBool r "parses", keepAlive := jBool r "keepalive" } : WireReq)
+    let acts := (sessionPlan 0 reqs).map fun a =>
+      match a with
+      | .answer i => Json.mkObj [("answer", .num ⟨(i : Int), 0⟩)]
+      | .parseError i => Json.mkObj [("parse_error", .num ⟨(i : Int), 0⟩)]
+    (st, some (Json.mkObj [("id", .num ⟨(jNat j "id" : Int), 0⟩), ("op", .str "plan"), ("actions", .arr acts.toArray)]))
   | op => (st, some (Json.mkObj [("error", .str s!"unknown op {op}")]))
 
 end Driver
